@@ -47,7 +47,9 @@ func baseMulti() *spec.Program {
 	mid := M("Mid", nil, F("Name", "string"), F("Leaf", "msg:Leaf"), F("Leaves", "msg:Leaf", rep()), F("LeafMap", "map:msg:Leaf", nn()))
 	a := M("Alpha", []string{"Pick"}, F("Id", "string"), F("M1", "msg:Mid"), F("M2", "msg:Mid", nn()), F("L", "msg:Leaf"), F("When", "timestamp", stdtime()),
 		F("PickStr", "string", oneof(0)), F("PickLeaf", "msg:Leaf", oneof(0)), F("Mode", "enum:Mode"))
-	b := M("Beta", nil, F("Id", "string"), F("Mids", "msg:Mid", rep()), F("Count", "int64"), F("Ratio", "double"))
+	// Beta.L mirrors Alpha.L: the same message type under the same field name in two selected types (the
+	// shape of the README's exclude_fields example)
+	b := M("Beta", nil, F("Id", "string"), F("Mids", "msg:Mid", rep()), F("Count", "int64"), F("Ratio", "double"), F("L", "msg:Leaf"), F("M1", "msg:Mid"))
 	g := M("Gamma", nil, F("Label", "string"), F("Leaf", "msg:Leaf", nn()))
 	cfg := baseConfig("Alpha", "Beta")
 	cfg.RequiredFields = []string{"Alpha.Id"}
@@ -355,9 +357,9 @@ func Families(tier string, seed int64) []*spec.Program {
 		}
 		vtag := spec.SupportPkg + `.V("c11")`
 		ptag := spec.SupportPkg + `.PM("c11")`
-		keys := []string{"Alpha.M1.Leaf.Str", "Leaf.Str", "Beta.Mids.Name", "Mid.Leaves", "Alpha.M2.LeafMap.Num", "Alpha.PickLeaf.Tags", "Alpha.L", "Leaf.Tags"}
+		keys := []string{"Alpha.M1.Leaf.Str", "Leaf.Str", "Beta.Mids.Name", "Mid.Leaves", "Alpha.M2.LeafMap.Num", "Beta.L.Num", "Alpha.L.Str", "Beta.M1.Leaf.Tags", "Alpha.PickLeaf.Tags", "Alpha.L", "Leaf.Tags"}
 		if !thorough {
-			keys = keys[:5]
+			keys = keys[:8]
 		}
 		var ovs []ov
 		for ki, k := range keys {
